@@ -6,6 +6,7 @@ package proxyproto
 //vf:assume C08: io.Reader fakes never return (0, nil); short reads happen only at the stated cut points
 //vf:assume C08-v2: header length field concretised 0..40 (quick) / 0..64 (thorough); payload tail 0..4 / 0..8 bytes; lengths above are outside the claim except the >2048 rejection
 //vf:assume C08: acceptance of more than the PROXY protocol grammar is not flagged; only mis-reporting, over/under-consumption, nil addresses and panics are
+//vf:assume C08-garbage: 16 (quick) / 20 (thorough; 24 did not finish in 10 minutes) arbitrary bytes, optionally starting with "PROXY ", delivered at once or one byte per read
 
 import (
 	"context"
@@ -301,7 +302,7 @@ func vfH_C08_v2_oversized() {
 func vfH_C08_garbage() {
 	n := 16
 	if vfrt.Thorough() {
-		n = 24
+		n = 20 // 24 did not finish in 10 minutes
 	}
 	data := vfrt.Bytes("garbage", n)
 	if vfrt.Bool("proxy-prefixed") {
